@@ -97,11 +97,39 @@ def render(d, svc="Svc"):
         L.append("        }")
     L.append("    }")
     # driver
+    serde_derived = d["derive"] == ""
     L.append("    pub async fn run() -> Vec<String> {")
+    L.append("        let mut all_fails: Vec<String> = vec![];")
+    L.append("        {")
+    L.append("            let (ct, st) = tarpc::transport::channel::unbounded();")
+    L.append("            all_fails.extend(run_over(ct, st).await);")
+    L.append("        }")
+    if serde_derived:
+        # the same calls through the serializing transports (name-tagged JSON, positional bincode)
+        L.append("        {")
+        L.append("            let (a, b) = tokio::io::duplex(1 << 16);")
+        L.append("            let ct = tarpc::serde_transport::new(tarpc::tokio_util::codec::Framed::new(a, tarpc::tokio_util::codec::LengthDelimitedCodec::new()), tarpc::tokio_serde::formats::Json::default());")
+        L.append("            let st = tarpc::serde_transport::new(tarpc::tokio_util::codec::Framed::new(b, tarpc::tokio_util::codec::LengthDelimitedCodec::new()), tarpc::tokio_serde::formats::Json::default());")
+        L.append("            all_fails.extend(run_over(ct, st).await.into_iter().map(|f| format!(\"[JSON transport] {f}\")));")
+        L.append("        }")
+        L.append("        {")
+        L.append("            let (a, b) = tokio::io::duplex(1 << 16);")
+        L.append("            let ct = tarpc::serde_transport::new(tarpc::tokio_util::codec::Framed::new(a, tarpc::tokio_util::codec::LengthDelimitedCodec::new()), tarpc::tokio_serde::formats::Bincode::default());")
+        L.append("            let st = tarpc::serde_transport::new(tarpc::tokio_util::codec::Framed::new(b, tarpc::tokio_util::codec::LengthDelimitedCodec::new()), tarpc::tokio_serde::formats::Bincode::default());")
+        L.append("            all_fails.extend(run_over(ct, st).await.into_iter().map(|f| format!(\"[bincode transport] {f}\")));")
+        L.append("        }")
+    L.append("        all_fails")
+    L.append("    }")
+    L.append(f"    async fn run_over<CT, ST>(ct: CT, st: ST) -> Vec<String>")
+    L.append(f"    where CT: tarpc::Transport<tarpc::ClientMessage<{svc}Request>, tarpc::Response<{svc}Response>> + Send + 'static,")
+    L.append(f"          ST: tarpc::Transport<tarpc::Response<{svc}Response>, tarpc::ClientMessage<{svc}Request>> + Send + Unpin + 'static,")
+    L.append(f"          <CT as futures::Sink<tarpc::ClientMessage<{svc}Request>>>::Error: std::error::Error + Send + Sync + 'static,")
+    L.append(f"          <CT as futures::Stream>::Item: Send,")
+    L.append(f"          <ST as futures::Sink<tarpc::Response<{svc}Response>>>::Error: std::error::Error + Send + Sync + 'static,")
+    L.append("    {")
     L.append("        let mut fails: Vec<String> = vec![];")
     L.append("        let log = Arc::new(Mutex::new(Vec::<String>::new()));")
     L.append("        let names = Arc::new(Mutex::new(Vec::<String>::new()));")
-    L.append("        let (ct, st) = tarpc::transport::channel::unbounded();")
     L.append("        let wire = Arc::new(Mutex::new(Vec::<String>::new()));")
     L.append("        let st = crate::support::Tap { inner: st, seen: wire.clone() };")
     L.append("        let names2 = names.clone();")
@@ -197,6 +225,12 @@ COLLISIONS = [
     ("method_call", "async fn call(x: u32) -> u32;"),
     ("method_name", "async fn name(x: u32) -> u32;"),
     ("method_self_type", "async fn r#Self(x: u32) -> u32;"),
+    # an UpperCamel method next to its snake_case twin (different variants, possibly the same
+    # name under a name-tagged codec), in both declaration orders
+    ("twin_upper_first", "async fn GetItem(x: u32) -> u32; async fn get_item(x: u32) -> u32;"),
+    ("twin_snake_first", "async fn get_item(x: u32) -> u32; async fn GetItem(x: u32) -> u32;"),
+    ("twin_underscores", "async fn GetItem(x: u32) -> u32; async fn _get__item_(x: u32) -> u32;"),
+    ("twin_three", "async fn GetItem(x: u32) -> u32; async fn getItem(x: u32) -> u32; async fn get_item(x: u32) -> u32;"),
 ]
 
 def collision_crate(label, body):
@@ -215,8 +249,25 @@ def collision_crate(label, body):
     L.append("}")
     L.append("#[tokio::main(flavor = \"current_thread\")]")
     L.append("async fn main() {")
+    L.append("    let mut all: Vec<String> = vec![];")
+    L.append("    { let (ct, st) = tarpc::transport::channel::unbounded(); all.extend(run_over(ct, st).await); }")
+    for codec in ["Json", "Bincode"]:
+        L.append("    {")
+        L.append("        let (a, b) = tokio::io::duplex(1 << 16);")
+        L.append(f"        let ct = tarpc::serde_transport::new(tarpc::tokio_util::codec::Framed::new(a, tarpc::tokio_util::codec::LengthDelimitedCodec::new()), tarpc::tokio_serde::formats::{codec}::default());")
+        L.append(f"        let st = tarpc::serde_transport::new(tarpc::tokio_util::codec::Framed::new(b, tarpc::tokio_util::codec::LengthDelimitedCodec::new()), tarpc::tokio_serde::formats::{codec}::default());")
+        L.append(f"        all.extend(run_over(ct, st).await.into_iter().map(|f| format!(\"[{codec} transport] {{f}}\")));")
+        L.append("    }")
+    L.append("    println!(\"{}\", serde_json_min(&all));")
+    L.append("}")
+    L.append("async fn run_over<CT, ST>(ct: CT, st: ST) -> Vec<String>")
+    L.append("where CT: tarpc::Transport<tarpc::ClientMessage<SvcRequest>, tarpc::Response<SvcResponse>> + Send + 'static,")
+    L.append("      ST: tarpc::Transport<tarpc::Response<SvcResponse>, tarpc::ClientMessage<SvcRequest>> + Send + Unpin + 'static,")
+    L.append("      <CT as futures::Sink<tarpc::ClientMessage<SvcRequest>>>::Error: std::error::Error + Send + Sync + 'static,")
+    L.append("      <CT as futures::Stream>::Item: Send,")
+    L.append("      <ST as futures::Sink<tarpc::Response<SvcResponse>>>::Error: std::error::Error + Send + Sync + 'static,")
+    L.append("{")
     L.append("    let log = Arc::new(Mutex::new(Vec::<String>::new()));")
-    L.append("    let (ct, st) = tarpc::transport::channel::unbounded();")
     L.append("    tokio::spawn(server::BaseChannel::with_defaults(st).execute(Imp(log.clone()).serve()).for_each(|f| async move { tokio::spawn(f); }));")
     L.append("    let client = SvcClient::new(tarpc::client::Config::default(), ct).spawn();")
     L.append("    let mut fails: Vec<String> = vec![];")
@@ -225,7 +276,7 @@ def collision_crate(label, body):
         L.append(f"    let got = client.{name}(context::current(), 7).await;")
         L.append(f"    if !matches!(got, Ok({(i + 1) * 1000 + 7})) {{ fails.push(format!(\"{name}: {{:?}}\", got.map_err(|e| e.to_string()))); }}")
         L.append(f"    if log.lock().unwrap()[before..] != [\"{i + 1}\".to_string()] {{ fails.push(\"{name}: wrong implementor method ran\".into()); }}")
-    L.append("    println!(\"{}\", serde_json_min(&fails));")
+    L.append("    fails")
     L.append("}")
     L.append("fn serde_json_min(f: &[String]) -> String { format!(\"RESULT {:?}\", f) }")
     return "\n".join(L)
@@ -339,7 +390,7 @@ edition = "2021"
 
 [dependencies]
 tarpc = {{ path = "{REPO}/tarpc", features = ["full"] }}
-tokio = {{ version = "1", features = ["rt", "macros"] }}
+tokio = {{ version = "1", features = ["rt", "macros", "io-util"] }}
 futures = "0.3"
 tracing = "0.1"
 tracing-subscriber = "0.3"
